@@ -771,6 +771,11 @@ class WorkerPool:
                     self._cache[MAIN_PROCESS]._set(success=False, result=idle_worker_death)
                     self._handle_exception()
 
+            # A worker_init/worker_exit failure during earlier apply tasks has stopped the workers, but there was no map
+            # call around to clean up after them. Do that now, such that this call starts fresh workers
+            if self._workers and self._worker_comms.exception_thrown():
+                self.terminate()
+
             # Start tqdm manager if a progress bar is desired. Will only start one when not already started. This has to
             # be done before starting the workers in case nested pools are used
             if progress_bar:
@@ -971,6 +976,11 @@ class WorkerPool:
             MPIRE will raise a ``TimeoutError``. Use ``None`` to disable (default).
         :return: Result of the function ``func`` applied to the task
         """
+        # A worker_init/worker_exit failure during earlier apply tasks has stopped the workers. Clean up after them, such
+        # that fresh workers are started
+        if self._workers and not self._map_running and self._worker_comms.exception_thrown():
+            self.terminate()
+
         # Check if the pool has been started
         if not self._workers:
             self.map_params = WorkerMapParams(func, worker_init, worker_exit, None, False, task_timeout,
